@@ -19,20 +19,6 @@ namespace Rosu.C16d
 open Rosu.SkillOps Rosu.TaikoSkill
 open Rosu.Skill (Obj)
 
-/-- all numbers a finished skill holds are `≥ 0` and `StrainsVec::push` altered none of them -/
-def SkillNonneg {σ : Type} (st : StateV ℝ σ) : Prop :=
-  (∀ v ∈ st.objectStrains, 0 ≤ v) ∧ (∀ p ∈ st.peaks, 0 ≤ p) ∧ 0 ≤ st.sectionPeak ∧
-    exportPeaksV st = st.peaks ++ [st.sectionPeak]
-
-theorem skillNonneg_of_ok {σ : Type} {Inv : σ → Prop} {st : StateV ℝ σ}
-    (h : StateOK Inv (fun v : ℝ => 0 ≤ v) (fun v : ℝ => 0 ≤ v) st) : SkillNonneg st :=
-  ⟨h.objectStrains, h.peaks, h.sectionPeak, exportPeaksV_of_nonneg h.peaks h.sectionPeak⟩
-
-private theorem hmax : ∀ a b : ℝ, 0 ≤ a → 0 ≤ b → 0 ≤ FOps.fmax a b := fun _ _ ha _ => le_max_of_le_left ha
-
-private theorem zero_ok : (0 : ℝ) ≤ (@OfScientific.ofScientific ℝ FOps.toOfScientific 0 true 1) := by
-  rw [r_zero]
-
 /-- **(a) rhythm, reading, stamina, single-colour stamina: every evaluator output, object strain and
 peak is `≥ 0` — for EVERY record list**, every great-hit-window, section arithmetic, fuel and
 prefix: no hypothesis on the records at all (every divisor is `max(·, 1)`, `1 + exp(·)`, a
